@@ -350,12 +350,29 @@ func (c *c01) walk(n *Node, in MIn, dv reflect.Value, path string, depth int) {
 			for _, e := range n.Def.L {
 				elems = append(elems, MIn{V: e})
 			}
+		} else if n.Coercer != "" && c.mode == "parse" {
+			// a custom slice coercer decides what the list is: the elements are then "present, whatever they came from"
+			elems = nil
+			if n.Coercer == "const" && n.CoVal != nil && dv.Len() == len(n.CoVal.L) {
+				for _, e := range n.CoVal.L {
+					elems = append(elems, MIn{V: e})
+				}
+			}
 		} else if in.V.K == "l" || in.V.K == "tl" || in.V.K == "sl" {
 			for _, e := range in.V.L {
 				elems = append(elems, MIn{V: e})
 			}
 		} else {
 			elems = []MIn{{V: in.V}}
+		}
+		if elems == nil && n.Coercer != "" && c.mode == "parse" {
+			// (no per-element inputs known: only the list's own tests are re-evaluated)
+			if dv.Len() > 0 {
+				elems = make([]MIn, dv.Len())
+				for i := range elems {
+					elems[i] = MIn{V: VS("?present")}
+				}
+			}
 		}
 		if dv.Len() != len(elems) {
 			// length fidelity is C03's; without it the per-element inputs are unknown
